@@ -562,7 +562,7 @@ func init() {
 		Nontrivial: func(r *dsim.Result) bool {
 			return r.Probes["cov:heartbeat-ticks-checked"]+r.Probes["cov:burst-checked"] > 0
 		},
-		ProbeUniverse: []string{"cov:heartbeat-ticks-checked", "cov:burst-checked", "cov:second-burst", "cov:sender-with-the-nodes-system-id", "cov:identity-on-several-channels"},
+		ProbeUniverse: []string{"cov:heartbeat-ticks-checked", "cov:burst-checked", "cov:second-burst", "cov:sender-with-the-nodes-system-id", "cov:identity-on-several-channels", "cov:earlier-node-same-dialect"},
 		Real:          []string{"gomavlib (Node, nodeHeartbeat, nodeStreamRequest, Channel; instrumented with scheduling points only)", "pkg/frame", "pkg/message", "pkg/dialect", "pkg/streamwriter"},
 		Stub:          []string{"goroutine scheduler (dsim)", "clock (synctest)", "net sockets, pion UDP listener", "crypto/rand"},
 	})
